@@ -250,6 +250,7 @@ fn script_facts(p: &Prog) -> (u64, bool, Option<u64>) {
                 break;
             }
             BStep::Wait(_) => {}
+            BStep::Gen { len, times } => total += (*len * *times) as u64,
         }
     }
     let declared = match (&p.kind, p.no_chunking) {
